@@ -84,3 +84,43 @@ End PrimEqSrcThm.
 
 Lemma gen_primeq_complete : gen_primeq_ok = true.
 Proof. reflexivity. Qed.
+
+(** all of the above as one statement (re-exported by the properties that reason about Model/PrimEq.v) *)
+Lemma primeq_model_is_source {F : Type} {o : Ops F} {Fc : FieldC o} (c : @PEcfg F) (m : @Moist F)
+    (inc_va : bool) (x : @NCol F) (Tf g vg s q qc qi rt : nat -> F) (k : nat) :
+  u_dot_grad x k = u_dot_grad_src x k /\
+  t_omega_over_sigma_sp c Tf g vg k = t_omega_over_sigma_sp_src c Tf g vg k /\
+  combined_u c inc_va x (rt_dry c x) k = combined_u_src c inc_va x k /\
+  combined_v c inc_va x (rt_dry c x) k = combined_v_src c inc_va x k /\
+  kinetic x k = kinetic_src x k /\
+  temp_vertical_tendency c inc_va x k = temp_vertical_tendency_src c inc_va x k /\
+  hsa_nodal x s k = hsa_nodal_src x s k /\
+  hsa_mu x s k = hsa_u_src x s k * n_sec2 x /\
+  hsa_mv x s k = hsa_v_src x s k * n_sec2 x /\
+  temp_adiabatic c x k = temp_adiabatic_src c x k /\
+  log_pressure_tendency c x = log_pressure_tendency_src c x /\
+  moisture_contribution c m q k = moisture_contribution_src c m q k /\
+  rt_moist c m x q k = rt_moist_src c x (moisture_contribution c m q) k /\
+  rt_cloud c m x q qc qi k = rt_cloud_src c x (moisture_contribution c m q) qc qi k /\
+  combined_u c inc_va x rt k = combined_u_moist_src c inc_va x q rt k /\
+  combined_v c inc_va x rt k = combined_v_moist_src c inc_va x q rt k /\
+  temp_adiabatic_moist c m x q k = temp_adiabatic_moist_src c m x q k.
+Proof.
+  split; [apply u_dot_grad_matches_source|].
+  split; [apply t_omega_matches_source|].
+  split; [apply (combined_matches_source c inc_va x k)|].
+  split; [apply (combined_matches_source c inc_va x k)|].
+  split; [apply kinetic_matches_source|].
+  split; [apply temp_vertical_tendency_matches_source|].
+  split; [apply (hsa_matches_source x s k)|].
+  split; [apply (hsa_matches_source x s k)|].
+  split; [apply (hsa_matches_source x s k)|].
+  split; [apply temp_adiabatic_matches_source|].
+  split; [apply log_pressure_tendency_matches_source|].
+  split; [apply (rt_moist_matches_source c m x q k)|].
+  split; [apply (rt_moist_matches_source c m x q k)|].
+  split; [apply rt_cloud_matches_source|].
+  split; [apply (combined_moist_matches_source c inc_va x q rt k)|].
+  split; [apply (combined_moist_matches_source c inc_va x q rt k)|].
+  apply temp_adiabatic_moist_matches_source.
+Qed.
